@@ -12,10 +12,24 @@ BACKENDS = 'valjean.cosette.backends.'
 FINAL = frozenset('DFS')
 
 
-def is_decision_function(func):
-    rets = [n for n in ast.walk(func.node) if isinstance(n, ast.Return) and
-            n.value is not None and enum_member(n.value, 'TaskStatus')]
-    return len(rets) >= 2
+def is_decision_function(func, depth=0):
+    '''Returns task statuses (at least two returns of a TaskStatus member,
+    or of a call to another decision function of the same class).'''
+    count = 0
+    for node in ast.walk(func.node):
+        if not (isinstance(node, ast.Return) and node.value is not None):
+            continue
+        if enum_member(node.value, 'TaskStatus'):
+            count += 1
+        elif isinstance(node.value, ast.Call) and depth < 2 and \
+                func.cls is not None and isinstance(
+                    node.value.func, ast.Attribute) and dotted(
+                        node.value.func.value) in ('cls', 'self'):
+            callee = func.cls.methods.get(node.value.func.attr)
+            if callee is not None and callee is not func and \
+                    is_decision_function(callee, depth + 1):
+                count += 1
+    return count >= 2
 
 
 def find_decision_site(program):
@@ -498,3 +512,76 @@ def check_lock(ctx):
                                   'master')
     ctx.floor('LOCK-ctor', n_ctor, 2, 'self.lock = threading.RLock() in '
               '__init__ and __setstate__')
+
+
+# ------------------------------------------------------------------ TOPO ---
+
+def check_topo(ctx):
+    '''The master examines the tasks in a topological order of the SAME
+    graph that gives `deps` (all dependencies) to the decision: within one
+    pass every dependency is decided before its dependents, so a DONE task is
+    never kept on the strength of a dependency status that the same pass is
+    about to reset.'''
+    program = ctx.program
+    sites = find_decision_site(program)
+    ctx.floor('TOPO', len(sites), 1, 'decision call site')
+    func, call, _decide, bound, _env_expr, _atomic = sites[0]
+    roles = bind_roles(program, func, call, bound)
+    deps_graph = None
+    for _idx, (role, _what, graph) in roles.items():
+        if role == 'deps':
+            deps_graph = graph
+    parents = enclosing_chain(func.node)
+    loop = lexically_inside(parents, call, lambda n: isinstance(n, ast.For))
+    if deps_graph is None or loop is None or not isinstance(loop.iter,
+                                                            ast.Name):
+        ctx.undecided('TOPO', func, 'loop over the tasks / graph of `deps` '
+                      'not recognised', at=func.where(call))
+        return
+    tasks_param = loop.iter.id
+    if tasks_param not in func.params or deps_graph not in func.params:
+        ctx.undecided('TOPO', func, f'{tasks_param} / {deps_graph} are not '
+                      f'parameters of {func.name}', at=func.where(call))
+        return
+    off = 1 if func.params[0] in ('self', 'cls') else 0
+    pos_tasks = func.params.index(tasks_param) - off
+    pos_graph = func.params.index(deps_graph) - off
+    found = 0
+    for caller in program.all_functions():
+        if not caller.module.name.startswith(BACKENDS):
+            continue
+        defs = {}
+        for node in ast.walk(caller.node):
+            if isinstance(node, ast.Assign) and len(node.targets) == 1 and \
+                    isinstance(node.targets[0], ast.Name):
+                defs.setdefault(node.targets[0].id, []).append(node.value)
+        for sub in calls_in(caller.node):
+            if call_name(sub) != func.name or len(sub.args) <= max(
+                    pos_tasks, pos_graph):
+                continue
+            found += 1
+            tasks_arg, graph_arg = sub.args[pos_tasks], txt(
+                sub.args[pos_graph])
+            sorts = [v for v in defs.get(txt(tasks_arg), [])
+                     if isinstance(v, ast.Call) and call_name(v) ==
+                     'topological_sort']
+            others = [v for v in defs.get(txt(tasks_arg), [])
+                      if not (isinstance(v, ast.Call) and call_name(v) in (
+                          'topological_sort', func.name))]
+            if not sorts:
+                ctx.undecided('TOPO', caller, f'{txt(tasks_arg)} is not the '
+                              f'result of a topological_sort()',
+                              at=caller.where(sub))
+                continue
+            sorted_graph = dotted(receiver(sorts[0]))
+            ctx.decide('TOPO', caller,
+                       f'tasks examined in the order of '
+                       f'{sorted_graph}.topological_sort(); `deps` come from '
+                       f'{graph_arg}', sorted_graph == graph_arg and not
+                       others, at=caller.where(sorts[0]),
+                       detail='the order ignores some dependencies (soft '
+                              'ones): on a re-run a DONE task can be '
+                              'examined, and dropped as up to date, before '
+                              'the dependency that the same pass resets'
+                       if sorted_graph != graph_arg else None)
+    ctx.floor('TOPO-call', found, 1, f'call of {func.name}')
